@@ -1850,7 +1850,7 @@ def run(ctx):
             ctx.count("%s:loader=%s" % (fmt, loader))
             if fs & {"dots1", "dots2", "tie", "grace", "chord", "two_layers", "staves:2", "staves:3", "meter_change", "key_change"} or any(x.startswith("tuplet") for x in fs):
                 ctx.nontrivial(text)
-            if di < 2:
+            if di < 1:
                 ctx.sample({"format": fmt, "file": text[:1500], "loaded": "ok" if st == "ok" else obs})
             if bad:
                 clauses = {b[0] for b in bad}
